@@ -169,10 +169,18 @@ func doDoltCommit(ctx *sql.Context, args []string) (string, bool, error) {
 
 	if apr.Contains(cli.ForceFlag) {
 		commitStagedProps.Force = true
+		// --force applies to this commit only, restore the session's own setting afterwards
+		prevForce, err := ctx.GetSessionVariable(ctx, "dolt_force_transaction_commit")
+		if err != nil {
+			return "", false, err
+		}
 		err = ctx.SetSessionVariable(ctx, "dolt_force_transaction_commit", 1)
 		if err != nil {
 			return "", false, err
 		}
+		defer func() {
+			_ = ctx.SetSessionVariable(ctx, "dolt_force_transaction_commit", prevForce)
+		}()
 	}
 
 	shouldSign, err := dsess.GetBooleanSystemVar(ctx, "gpgsign")
